@@ -1951,9 +1951,23 @@ pub(crate) mod convert {
             deps: &mut Vec<UnitSectionOffset>,
             offset: LocationListsOffset,
         ) -> ConvertResult<()> {
-            let mut locations = self.read_unit.locations(offset)?;
+            // Use the raw entries, since the conversion converts the expression of every
+            // entry, including those that the cooked iterator skips.
+            let mut locations = self.read_unit.raw_locations(offset)?;
             while let Some(location) = locations.next()? {
-                self.add_expression_refs(deps, location.data)?;
+                match location {
+                    read::RawLocListEntry::AddressOrOffsetPair { data, .. }
+                    | read::RawLocListEntry::StartxEndx { data, .. }
+                    | read::RawLocListEntry::StartxLength { data, .. }
+                    | read::RawLocListEntry::OffsetPair { data, .. }
+                    | read::RawLocListEntry::StartEnd { data, .. }
+                    | read::RawLocListEntry::StartLength { data, .. }
+                    | read::RawLocListEntry::DefaultLocation { data } => {
+                        self.add_expression_refs(deps, data)?;
+                    }
+                    read::RawLocListEntry::BaseAddress { .. }
+                    | read::RawLocListEntry::BaseAddressx { .. } => {}
+                }
             }
             Ok(())
         }
